@@ -8,6 +8,7 @@ use std::fs;
 use std::path::{Path, PathBuf};
 
 mod parsites;
+mod instrspec;
 
 pub fn rust_files(dir: &Path, out: &mut Vec<PathBuf>) {
     let mut entries: Vec<_> = fs::read_dir(dir).unwrap().map(|e| e.unwrap().path()).collect();
@@ -37,6 +38,7 @@ fn main() {
     for what in &args[3..] {
         let (file, text) = match what.as_str() {
             "parsites" => ("ParSites.lean", parsites::generate(&repo)),
+            "instrspec" => ("InstrSpec.lean", instrspec::generate(&repo)),
             other => {
                 eprintln!("unknown target {}", other);
                 std::process::exit(2);
